@@ -24,9 +24,19 @@ HEADLINE = ("TwistedProps.C26.child_is_self_or_direct_child_or_raises / preauthC
             "descendant_inside_subtree_or_raises / static_serves_only_inside_root")
 RULE = ("FilePath ops: parents from a fixed list of roots (/, //, nested, relative, trailing slash, non-UTF-8) x names built "
         "from a hostile piece alphabet ('..', '.', '', '\\\\', NUL, 0xff, siblings sharing the parent's name prefix, absolute "
-        "paths) in the four bytes/text mode combinations; static: URIs of 0..5 segments from percent-encoded/raw hostile "
+        "paths) in the four bytes/text mode combinations; plus (mutation audit) names a careless test takes for the parent or "
+        "for a plain name: the parent's own name / '..' / '.' in another letter case, with a line end, blank, control byte, NUL, "
+        "NBSP, U+2028 or BOM attached, or spelt with NFKC lookalikes of '.', '..', '/'; names embedding the parent's whole path "
+        "below another directory; cousins (the parent's path with one byte changed, pattern metacharacters first; parents whose "
+        "own path has '.', '+', '?', upper case, a trailing line feed); descendant() segments handed over as list, tuple, one-shot iterator, generator or bare "
+        "__getitem__ sequence; static: URIs of 0..5 segments from percent-encoded/raw hostile "
         "pieces and real names over a scratch tree with sibling directories vroot-evil/vrootX, 5 root variants, 4 ignoredExts "
-        "settings; lexical primitives on random strings; distinct = (op, mode/root variant, outcome class, feature set of the input)")
+        "settings; plus single segments that carry a whole path (undecodable bytes + encoded separators + '..' + an existing "
+        "target, counted exactly up to the directory above the root), decorated/case-changed/lookalike segments, GET and HEAD, "
+        "requests served after earlier requests by the same Site and root File object; the directory above the root holds "
+        "everything an escaping lookup would look for (index documents, <root>.html/.txt/.bak, VROOT, 'vroot\\n', 'vroot ', a "
+        "non-UTF-8 name); lexical primitives on random strings; distinct = (op, mode/root variant, outcome class, feature set "
+        "of the input, container kind / method / history)")
 ASSUMES = [
     "POSIX only (os.sep == '/'); the Windows colon/backslash branches of FilePath.child and isDangerous are not modelled",
     "no symbolic links below the root (excluded by the statement)",
@@ -35,6 +45,9 @@ ASSUMES = [
     "(administrator-supplied configuration; the '*' wildcard extension is covered); os.listdir returns names without '/'",
     "text-mode FilePaths are the byte algorithms under the filesystem encoding (utf-8/surrogateescape); checked by running all four mode combinations",
     "os.getcwd() is absolute",
+    "descendant(): an iterable of segments is modelled as the list of the items it yields (one pass)",
+    "static.File: HEAD is modelled as GET (render_HEAD = render_GET); the model is stateless, so a request served after "
+    "other requests by the same Site/File object must behave as if it were the first (checked, not assumed)",
 ]
 TRUSTED = ["sys.addaudithook 'open'/'os.listdir'/'os.scandir' events as the record of what the static resource read"]
 MANIFEST = {
@@ -42,7 +55,9 @@ MANIFEST = {
             "FilePath.child/preauthChild/descendant and static.File.getChild/Request.process: for every parent, name, segment list, "
             "request URI, and every symlink-free filesystem, the returned/served path is normalised and the parent's segment list is a "
             "prefix of its segment list (child: equal or exactly one longer), or InsecurePath/404; model tied to the real code "
-            "by differential runs (FilePath in bytes/text modes, static.File through Site on a scratch tree with prefix-sharing siblings).",
+            "by differential runs (FilePath in bytes/text modes, lists and one-shot iterables of segments, static.File through Site "
+            "with GET/HEAD and reused Site objects on a scratch tree with prefix-sharing, case-variant and whitespace-suffixed siblings "
+            "and index documents above the root).",
     "note": "trusts Lean kernel, the hand-written model (differentially tied), CPython posixpath/urllib semantics, audit-hook observation",
     "technique": "Lean 4 proof (normpath invariant + split/join algebra + induction over segments/postpath) + differential tie + audit-hook oracle",
     "design_ref": "DESIGN.md §7.5 C26",
@@ -73,7 +88,12 @@ FILES = ["vroot/a.txt", "vroot/x.html", "vroot/x.txt", "vroot/y.bak", "vroot/.hi
          "vroot/é.txt", "vroot/%2e%2e", "vroot/sub/index", "vroot/sub/b.txt", "vroot/sub/deep/c.txt",
          "vroot/idx/index.html", "vroot/idx/index.htm", "vroot/z.d/in.txt", "vroot/z.e",
          "vroot-evil/secret.txt", "vroot-evil/index.html", "vrootX/secret.txt", "secret.txt", "a.txt",
-         "vroot/sub/vroot-evil/inner.txt"]
+         "vroot/sub/vroot-evil/inner.txt",
+         # what an escaping lookup would look for ABOVE the root must exist there: index documents, the root's own
+         # name plus an ignored extension, case / trailing-whitespace variants of the root's name, a non-UTF-8 name
+         "index.html", "index", "vroot.html", "vroot.txt", "vroot.bak", "VROOT/secret.txt", "Vroot/a.txt",
+         "vroot\n/secret.txt", "vroot /secret.txt", "s\udcff.txt", "vroot/idx/n\udcff.txt", "vroot/sub/SUB/up.txt",
+         "sub/b.txt", "sub/index", "SECRET.TXT"]
 DIRS = ["vroot/empty", "vroot/sub/deep/deeper"]
 
 
@@ -87,7 +107,7 @@ def tree():
             p = os.path.join(base, f)
             os.makedirs(os.path.dirname(p), exist_ok=True)
             with open(p, "w") as fh:
-                fh.write("content of " + f)
+                fh.write("content of " + ascii(f))
         dirs, files = [], []
         for dp, dn, fn in os.walk(base):
             dirs.append((os.fsencode(dp), [os.fsencode(n) for n in os.listdir(dp)]))
@@ -151,39 +171,53 @@ def _source_file(p):
     return isinstance(p, str) and p.endswith((".py", ".pyc")) and not p.startswith(tree()["base"])
 
 
+def _request(site, method, uri):
+    if _line_safe(uri):
+        chan = site.buildProtocol(None)
+        tr = StringTransport()
+        chan.makeConnection(tr)
+        chan.dataReceived(method + b" " + uri + b" HTTP/1.1\r\nHost: h\r\n\r\n")
+        return tr.value
+    chan = DummyChannel()
+    chan.site = site
+    req = server.Request(chan, False)
+    req.gotLength(0)
+    req.requestReceived(method, uri, b"HTTP/1.1")
+    return chan.transport.written.getvalue
+
+
 def _serve_raw(c):
-    """→ (located resource, request, [(event, path-bytes)], response bytes)"""
+    """→ (located resource, request, [(event, path-bytes)], response bytes)
+
+    The requests in c["pre"] (if any) are served first by the SAME Site and root File object; what they read is
+    judged by the oracle too, the observable is the last request's."""
     _quiet_logging()
     t = tree()
     root = os.path.join(t["base"], ROOTS[c["root"]])
     uri = unhx(c["uri"])
+    method = c.get("method", "GET").encode("ascii")
     site = RecSite(static.File(root, ignoredExts=EXTS[c["exts"]]), reactor=Clock())
     del _events[:]
     _active[0] = True
     try:
-        if _line_safe(uri):
-            chan = site.buildProtocol(None)
-            tr = StringTransport()
-            chan.makeConnection(tr)
-            chan.dataReceived(b"GET " + uri + b" HTTP/1.1\r\nHost: h\r\n\r\n")
-            written = tr.value
-        else:
-            chan = DummyChannel()
-            chan.site = site
-            req = server.Request(chan, False)
-            req.gotLength(0)
-            written = chan.transport.written.getvalue
-            req.requestReceived(b"GET", uri, b"HTTP/1.1")
+        for pre in c.get("pre", ()):
+            _request(site, b"GET", unhx(pre))
+        site.located = site.request = None
+        n_before = len(_events)
+        written = _request(site, method, uri)
     finally:
         _active[0] = False
-    evs = [(e, os.fsencode(p) if isinstance(p, str) else p) for e, p in _events
-           if isinstance(p, (str, bytes)) and not _source_file(p)]
-    return site.located, site.request, evs, written()
+
+    def clean(evs):
+        return [(e, os.fsencode(p) if isinstance(p, str) else p) for e, p in evs
+                if isinstance(p, (str, bytes)) and not _source_file(p)]
+    _LAST["all_events"] = clean(_events)                 # earlier requests included: all of it is judged by the oracle
+    return site.located, site.request, clean(_events[n_before:]), written()
 
 
 def run_serve(c):
     located, req, evs, response = _serve_raw(c)
-    _LAST["events"] = evs                                # for the oracle (not part of the observable)
+    _LAST["events"] = _LAST.pop("all_events")            # for the oracle (not part of the observable)
     _LAST["located"] = os.fsencode(located.path) if isinstance(getattr(located, "path", None), str) else None
     if req is None:
         # Request.process answered without any resource lookup (the `*` short-circuit: 405 for GET)
@@ -209,6 +243,34 @@ def _conv(b, m):
     return b if m == "b" else os.fsdecode(b)
 
 
+class _Seq:
+    """a minimal user-defined sequence: __len__/__getitem__ only (no __iter__, not a list subclass)"""
+
+    def __init__(self, items):
+        self._items = items
+
+    def __len__(self):
+        return len(self._items)
+
+    def __getitem__(self, i):
+        return self._items[i]
+
+
+def _container(kind, items):
+    """the same segments as a list, a tuple, a one-shot iterator / generator, or a bare sequence object"""
+    if kind == "list":
+        return items
+    if kind == "tuple":
+        return tuple(items)
+    if kind == "iter":
+        return iter(items)
+    if kind == "gen":
+        return (x for x in items)
+    if kind == "seq":
+        return _Seq(items)
+    raise ValueError(kind)
+
+
 def run_fp(c):
     our, mode = unhx(c["our"]), c["mode"]
     fp = FilePath(_conv(our, mode[0]))
@@ -219,7 +281,7 @@ def run_fp(c):
         elif c["fn"] == "preauth":
             r = fp.preauthChild(_conv(unhx(c["name"]), mode[1]))
         else:
-            r = fp.descendant([_conv(unhx(s), mode[1]) for s in c["segs"]])
+            r = fp.descendant(_container(c.get("kind", "list"), [_conv(unhx(s), mode[1]) for s in c["segs"]]))
     except InsecurePath:
         return "!raised InsecurePath"
     return "ok " + hx(os.fsencode(r.path))
@@ -300,7 +362,9 @@ def oracle(c, out):
             return None if out == "!raised InsecurePath" else {"key": "fp-raises-other", "detail": out}
         parent, r = _LAST["parent"], unhx(out[3:])
         ps, rs = _segs(parent), _segs(r)
-        show = f"FilePath({parent!r}).{c['fn']}({c.get('name') and unhx(c['name']) or [unhx(s) for s in c.get('segs', [])]!r}) [mode {c['mode']}] = {r!r}"
+        kind = c.get("kind", "list")
+        show = (f"FilePath({parent!r}).{c['fn']}({'' if kind == 'list' else '<' + kind + ' of> '}"
+                f"{unhx(c['name']) if 'name' in c else [unhx(s) for s in c.get('segs', [])]!r}) [mode {c['mode']}] = {r!r}")
         if not _normal(parent):
             return {"key": "parent-not-normalised", "detail": show}
         if c["fn"] == "child":
@@ -334,21 +398,79 @@ def oracle(c, out):
 # generation
 
 PARENTS = [b"/", b"//", b"/tmp/vroot", b"/tmp/vroot/", b"/a/b", b"//a", b"///a", b"rel", b"", b"/a/../b", b"/\xc3\xa9",
-           b"/tmp/v\xff", b"/a.b/c", b"/..", b"/a//b/.", b"//a/b"]
+           b"/tmp/v\xff", b"/a.b/c", b"/..", b"/a//b/.", b"//a/b",
+           # pattern metacharacters, mixed case and a trailing line feed in the parent's own path
+           b"/tmp/v.r/w.x", b"/srv/www+data/a?", b"/tmp/VRoot", b"/tmp/vroot\n"]
 PIECES = [b"..", b"..", b"..", b".", b"", b"x", b"y.txt", b"vroot", b"vroot-evil", b"vrootX", b"tmp", b"a", b"b", b"\\", b"..\\x",
-          b"\x00", b"a\x00b", b"\xff", b"\xc3\xa9", b"...", b".. ", b" ", b"a-evil", b"bX", b"%2e%2e", b":", b"c:"]
+          b"\x00", b"a\x00b", b"\xff", b"\xc3\xa9", b"...", b".. ", b" ", b"a-evil", b"bX", b"%2e%2e", b":", b"c:",
+          b"..\n", b"..\r\n", b".\n", b"\n", b"x\n", b" ..", b"..\t", b"..\x00", b"..\x00x", b"\xe2\x80\xa5", b"\xef\xbc\x8e\xef\xbc\x8e",
+          b"VROOT", b"Tmp", b"A", b"~", b"~root", b"$HOME", b"*", b"..;", b"..\xff"]
+
+
+# bytes that a sloppy comparison / clean-up step may ignore: line ends, blanks, controls, NUL, NBSP, U+2028, BOM
+DECOR = [b"\n", b"\n", b"\r\n", b"\r", b" ", b"\t", b"\x0b", b"\x0c", b"\x00", b"\x1f", b"\x7f", b"\x85", b"\xc2\xa0",
+         b"\xe2\x80\xa8", b"\xef\xbb\xbf", b".", b"\\", b":", b";", b"~", b"*", b"?"]
+# code points that compatibility normalisation / lookalike folding turns into '.', '..', '/', '\\'
+LOOKALIKE = {b".": [b"\xef\xbc\x8e", b"\xe2\x80\xa4", b"\xef\xb9\x92", b"\xe3\x80\x82"],
+             b"..": [b"\xe2\x80\xa5", b"\xef\xbc\x8e\xef\xbc\x8e", b"\xe2\x80\xa4\xe2\x80\xa4", b".\xef\xbc\x8e"],
+             b"/": [b"\xef\xbc\x8f", b"\xe2\x88\x95", b"\xe2\x81\x84", b"\xef\xbc\xbc"]}
+
+
+def _decorate(rng, special):
+    """a name a careless check may take for `special` ('..', '.', the parent's own name, …): the same bytes with
+    an ignorable byte before/after, in another letter case, or spelt with lookalike code points"""
+    r = rng.random()
+    if r < 0.55:
+        d = rng.choice(DECOR)
+        return special + d if rng.random() < 0.75 else d + special
+    if r < 0.8 and special.swapcase() != special:
+        return rng.choice([special.swapcase(), special.upper(), special.lower(), special[:1].swapcase() + special[1:],
+                           special[:-1] + special[-1:].swapcase()])
+    if special in LOOKALIKE:
+        return rng.choice(LOOKALIKE[special])
+    return special + rng.choice(DECOR)
+
+
+def _cousin(rng, p):
+    """the absolute path `p` with ONE byte changed (by preference a byte that is a wildcard in regex/glob patterns, or
+    a letter's case): a different directory which a pattern built from the unescaped parent path still matches"""
+    idx = [i for i, ch in enumerate(p) if ch in b".?*+[]"] * 4 + [i for i, ch in enumerate(p) if ch != 0x2f]
+    if not idx:
+        return b"/x"
+    i = rng.choice(idx)
+    ch = p[i:i + 1]
+    new = rng.choice([b"X", b"X", ch.swapcase() if ch.swapcase() != ch else b"x", b"\n", b"0"])
+    if new == ch:
+        new = b"Y"
+    return p[:i] + new + p[i + 1:]
 
 
 def _name(rng, parent):
     r = rng.random()
-    if r < 0.25:   # aimed at siblings that share the parent's name prefix
+    if r < 0.2:   # aimed at siblings that share the parent's name prefix
         p = posixpath.abspath(parent)
         base = posixpath.basename(p)
         up = rng.choice([b"..", b"../", b"./..", b"x/../.."])
         return posixpath.join(up, base + rng.choice([b"-evil", b"X", b"", b".", b"\x00", b"/"])) + rng.choice([b"", b"/x", b"/..", b"/../" + base])
-    if r < 0.35:   # absolute names
+    if r < 0.38:  # siblings / ancestors a careless comparison takes for the parent itself or for a plain name:
+        #           the parent's name in another case or with an ignorable byte attached, decorated '..' and '.'
         p = posixpath.abspath(parent)
-        return rng.choice([p, p + b"/", p + b"-evil", p + b"/sub", b"/" + p, p + b"/..", b"/", b"//", b"/etc/passwd", p + b"X/y"])
+        base = posixpath.basename(p) or b"x"
+        k = rng.random()
+        if k < 0.45:
+            return posixpath.join(rng.choice([b"..", b"../", b"x/../.."]), _decorate(rng, base)) + rng.choice([b"", b"", b"/x", b"/" + base])
+        if k < 0.6:
+            return posixpath.join(posixpath.dirname(p), _decorate(rng, base)) + rng.choice([b"", b"/x"])
+        if k < 0.85:
+            return _decorate(rng, b"..") + rng.choice([b"", b"", b"/x", b"/" + base, b"/.."])
+        return rng.choice([b"", b"x/"]) + _decorate(rng, rng.choice([b".", b"..", b"/"])) + rng.choice([b"", b"/..", b"/../.."])
+    if r < 0.5:   # absolute names (and names that embed the parent's whole path somewhere else)
+        p = posixpath.abspath(parent)
+        return rng.choice([p, p + b"/", p + b"-evil", p + b"/sub", b"/" + p, p + b"/..", b"/", b"//", b"/etc/passwd", p + b"X/y",
+                           b"/x" + p, b"/x" + p + b"/y", b"../../x" + p + b"/y", b"/.." + p + b"/../x" + p, p[1:], p[1:] + b"/y",
+                           p.swapcase(), p.upper() + b"/y", b"/x" + p + b"/", p + b"\n", p + b"\n/y", p + b" /y",
+                           _cousin(rng, p), _cousin(rng, p) + b"/y", _cousin(rng, p) + b"/y",
+                           posixpath.relpath(_cousin(rng, p), p), posixpath.relpath(_cousin(rng, p), p) + b"/y"])
     n = rng.choice([0, 1, 1, 1, 2, 2, 3, 4])
     s = b"/".join(rng.choice(PIECES) for _ in range(n))
     if rng.random() < 0.1:
@@ -358,8 +480,14 @@ def _name(rng, parent):
     return s
 
 
+KINDS = ["list", "list", "list", "tuple", "iter", "iter", "gen", "seq"]
+
+
 def _seg(rng):
-    if rng.random() < 0.85:
+    r = rng.random()
+    if r < 0.1:
+        return _decorate(rng, rng.choice([b"..", b"..", b".", b"/"]))
+    if r < 0.85:
         return rng.choice(PIECES)
     return rng.choice([b"a/b", b"../x", b"/", b"/a", b"x/..", b"./x", b"x/"])
 
@@ -369,7 +497,55 @@ URI_PIECES = [b"..", b"..", b".", b"", b"%2e%2e", b"%2E%2e", b".%2e", b"%2e", b"
               b"%c0%ae%c0%ae", b"%c0%af", b"%ed%a0%80", b"%f4%90%80%80", b"\xc3\xa9.txt", b"%c3%a9.txt", b"%C3%A9.txt", b"%252e%252e",
               b"%%32e", b"%", b"%4", b"%zz", b"%2", b"a.txt", b"a%2etxt", b"x", b"x.html", b"x.", b"y", b"z", b"z.d", b"sub", b"deep", b"c.txt", b"b.txt",
               b"index", b"idx", b"index.html", b"empty", b"deeper", b".hidden", b"a b.txt", b"a%20b.txt", b"%252e%252e", b"%2e%2e%2f", b"in.txt",
-              b"vroot-evil", b"vroot", b"vrootX", b"secret.txt", b"inner.txt", b"nope", b"?q=/../", b"a.txt?/..", b"...", b"a.txt/", b"*", b"x.*"]
+              b"vroot-evil", b"vroot", b"vrootX", b"secret.txt", b"inner.txt", b"nope", b"?q=/../", b"a.txt?/..", b"...", b"a.txt/", b"*", b"x.*",
+              b"..%0a", b"..%0d%0a", b"%2e%2e%0a", b"..%20", b"..%09", b"..%00", b".%0a", b"%0a", b"..\n", b"%20..", b"..%3b", b"..;x",
+              b"VROOT", b"Vroot", b"A.TXT", b"SUB", b"Sub", b"SECRET.TXT", b"vroot%0a", b"vroot%20", b"vroot.html", b"vroot.bak",
+              b"%e2%80%a5", b"%ef%bc%8e%ef%bc%8e", b"%ef%bc%8f", b"..%ef%bc%8fvroot-evil", b"~", b"~root", b"s%ff.txt", b"n%ff.txt",
+              b"%ff%2f..%2f..%2fsecret.txt", b"%ff%2f..%2fa.txt", b"..%2fs%ff.txt", b"%2fetc%2fpasswd", b"%2f", b"%2f%2f", b"index", b"index.html"]
+
+IN_SEG_SEP = [b"%2f", b"%2f", b"%2F", b"%5c", b"\\", b"%2f%2f", b"%2f.%2f"]
+IN_SEG_ITEMS = [b"..", b"..", b"..", b"%2e%2e", b".%2e", b".", b"", b"%ff", b"\xff", b"%c0%af", b"%00", b"%0a", b"x", b"sub", b"deep", b"a.txt", b"b.txt",
+                b"secret.txt", b"vroot-evil", b"vroot", b"vrootX", b"VROOT", b"index.html", b"etc", b"passwd", b"tmp", b"s%ff.txt", b"..%0a", b"%e2%80%a5"]
+
+
+def _compound(rng):
+    """ONE request segment that carries a whole relative/absolute path: items glued with encoded (or backslash)
+    separators — the classes that matter only together (non-UTF-8 + separator + '..', leading separator + name)"""
+    sep = rng.choice(IN_SEG_SEP)
+    if rng.random() < 0.45:
+        # directed: down through (possibly undecodable / non-existent) names, up past them and the root, to a file that exists
+        down = [rng.choice([b"%ff", b"%ff", b"\xff", b"%c0%af", b"%fe%fe", b"x", b"sub", b"%00", b"%0a", b"n%ff.txt"])
+                for _ in range(rng.choice([0, 1, 1, 1, 2]))]
+        ups = [rng.choice([b"..", b"..", b"..", b"%2e%2e", b".%2e"])] * (len(down) + rng.choice([0, 1, 1, 1, 2, 3]))
+        target = rng.choice([b"secret.txt", b"vroot-evil" + sep + b"secret.txt", b"s%ff.txt", b"a.txt", b"vroot" + sep + b"a.txt",
+                             b"index.html", b"sub" + sep + b"b.txt", b"VROOT" + sep + b"secret.txt", b"x.html", b""])
+        return (sep if rng.random() < 0.1 else b"") + sep.join(down + ups + [target])
+    items = [rng.choice(IN_SEG_ITEMS) for _ in range(rng.choice([2, 2, 3, 3, 4, 5]))]
+    out = (sep if rng.random() < 0.15 else b"") + sep.join(items)
+    return out + (sep if rng.random() < 0.1 else b"")
+
+
+def _quote_seg(rng, raw):
+    """raw segment bytes → request form: everything the request line cannot carry is percent-encoded (sometimes left
+    raw: such a URI is fed to Request.requestReceived directly)"""
+    keep_raw = rng.random() < 0.15
+    out = b""
+    for ch in raw:
+        if ch in b"%/?#" or ((ch < 0x21 or ch > 0x7e) and not keep_raw):
+            out += b"%%%02x" % ch
+        else:
+            out += bytes([ch])
+    return out
+
+
+def _hostile_seg(rng, real=None):
+    """a segment from the classes a per-class generator misses: compound, decorated specials, case variants"""
+    r = rng.random()
+    if r < 0.45:
+        return _compound(rng)
+    if r < 0.8 or real is None:
+        return _quote_seg(rng, _decorate(rng, rng.choice([b"..", b"..", b".", b"vroot", b"/"] + ([real] if real else []))))
+    return rng.choice([real.swapcase(), real.upper(), real.title()])
 
 
 def _pct(rng, seg):
@@ -381,7 +557,31 @@ def _pct(rng, seg):
     return out
 
 
+OUTSIDE = [b"secret.txt", b"vroot-evil/secret.txt", b"s%ff.txt", b"a.txt", b"index.html", b"sub/b.txt", b"VROOT/secret.txt",
+           b"vroot%0a/secret.txt", b"vroot.html", b"vrootX/secret.txt", b"", b"vroot/a.txt", b"vroot/sub/b.txt"]
+
+
+def _directed(rng, root):
+    """walk down real directories, then ONE segment that carries a whole path: down through undecodable / missing
+    names, up exactly (or nearly) as far as the directory above the root, on to a file that exists there"""
+    real = {"dir": [[], [], [b"sub"], [b"sub", b"deep"], [b"empty"], [b"idx"]], "slash": [[], [b"sub"]],
+            "sub": [[], [], [b"deep"], [b"deep", b"deeper"]]}.get(root, [[]])
+    walked = rng.choice(real)
+    sep = rng.choice([b"%2f", b"%2f", b"%2F", b"%2f", b"%5c"])
+    down = [rng.choice([b"%ff", b"%ff", b"\xff", b"%c0%af", b"%fe", b"x", b"%00", b"%0a", b"n%ff.txt", b"\xc3"])
+            for _ in range(rng.choice([0, 0, 1, 1, 1, 2]))]
+    depth = len(walked) + (2 if root == "sub" else 1)
+    ups = [rng.choice([b"..", b"..", b"..", b"%2e%2e", b".%2e"])] * (len(down) + depth + rng.choice([0, 0, 0, 0, -1, 1]))
+    target = rng.choice(OUTSIDE).replace(b"/", sep)
+    seg = sep.join(down + ups + [target])
+    if rng.random() < 0.15:
+        seg += rng.choice([b"%ff", b"%00", b"%0a", sep])
+    return b"/" + b"/".join(walked + [seg]) + rng.choice([b"", b"", b"", b"/", b"/x"])
+
+
 def _uri(rng, root="dir"):
+    if rng.random() < 0.1:
+        return _directed(rng, root)
     if rng.random() < 0.55:
         # a path that exists below the root, with neutral and hostile mutations
         prefix = ROOTS.get(root, "vroot").rstrip("/") + "/"
@@ -399,11 +599,16 @@ def _uri(rng, root="dir"):
             elif r < 0.27:
                 out += [sg, rng.choice([b"..", b"%2e%2e", b".%2e"]), sg]     # down, up, down again
                 continue
+            elif r < 0.37:
+                out.append(_hostile_seg(rng, sg))
+                if rng.random() < 0.5:
+                    out.append(sg)
+                continue
             out.append(_pct(rng, sg) if rng.random() < 0.4 else sg)
         tail = rng.choice([b"", b"", b"", b"/", b"/", b"/.", b"/..", b"//", b"?a=b", b"/?x=/.."])
         return b"/" + b"/".join(out) + tail
     n = rng.choice([0, 1, 1, 2, 2, 2, 3, 3, 4, 5])
-    s = b"/".join(rng.choice(URI_PIECES) for _ in range(n))
+    s = b"/".join(_hostile_seg(rng) if rng.random() < 0.2 else rng.choice(URI_PIECES) for _ in range(n))
     lead = rng.choice([b"/", b"/", b"/", b"/", b"/", b"//", b"", b"x", b"/./", b"/../"])
     return lead + s + rng.choice([b"", b"", b"", b"/", b"//", b"/.", b"/.."])
 
@@ -451,6 +656,47 @@ def corpus():
         {"op": "serve", "root": "dir", "exts": "none", "uri": hx(b"/a.txt?x=/../")},
         {"op": "serve", "root": "dir", "exts": "none", "uri": hx(b"*")},
         {"op": "serve", "root": "dir", "exts": "none", "uri": hx(b"*?/../x")},
+        # classes added by the white-box mutation audit (harness/mutants/C26): each is the witness of a surviving mutant
+        {"op": "fp", "fn": "preauth", "mode": "bb", "our": hx(b"/tmp/vroot"), "name": hx(b"../VROOT/x")},           # case-folded test
+        {"op": "fp", "fn": "preauth", "mode": "ss", "our": hx(b"/tmp/vroot"), "name": hx(b"/tmp/Vroot")},
+        {"op": "fp", "fn": "preauth", "mode": "bb", "our": hx(b"/tmp/vroot"), "name": hx(b"../vroot\n")},           # regex `$`
+        {"op": "fp", "fn": "preauth", "mode": "ss", "our": hx(b"/tmp/vroot"), "name": hx(b"../vroot\n")},
+        {"op": "fp", "fn": "preauth", "mode": "bb", "our": hx(b"/tmp/vroot"), "name": hx(b"../vroot\r\n/x")},
+        {"op": "fp", "fn": "preauth", "mode": "bb", "our": hx(b"/tmp/vroot"), "name": hx(b"/evil/tmp/vroot/x")},    # find() vs prefix
+        {"op": "fp", "fn": "preauth", "mode": "bb", "our": hx(b"/tmp/vroot"), "name": hx(b"../../x/tmp/vroot/y")},
+        {"op": "fp", "fn": "preauth", "mode": "bb", "our": hx(b"/tmp/vroot"), "name": hx(b"..\n")},
+        {"op": "fp", "fn": "preauth", "mode": "bb", "our": hx(b"/a.b/c"), "name": hx(b"/aXb/c/y")},                 # unescaped pattern
+        {"op": "fp", "fn": "preauth", "mode": "ss", "our": hx(b"/tmp/v.r/w.x"), "name": hx(b"../wXx")},
+        {"op": "fp", "fn": "child", "mode": "bb", "our": hx(b"/tmp/vroot"), "name": hx(b"..\n")},                   # clean-up after the test
+        {"op": "fp", "fn": "child", "mode": "ss", "our": hx(b"/tmp/vroot"), "name": hx(b"..\r\n")},
+        {"op": "fp", "fn": "child", "mode": "bb", "our": hx(b"/tmp/vroot"), "name": hx(b".. ")},
+        {"op": "fp", "fn": "child", "mode": "bb", "our": hx(b"/tmp/vroot"), "name": hx(b"..\x00")},
+        {"op": "fp", "fn": "child", "mode": "ss", "our": hx(b"/tmp/vroot"), "name": hx(b"\xe2\x80\xa5")},          # U+2025 (NFKC: '..')
+        {"op": "fp", "fn": "child", "mode": "ss", "our": hx(b"/tmp/vroot"), "name": hx(b"x\xef\xbc\x8f..")},       # U+FF0F (NFKC: '/')
+        {"op": "fp", "fn": "desc", "mode": "bb", "our": hx(b"/tmp/vroot"), "segs": [hx(b".."), hx(b"x")], "kind": "iter"},   # one-shot iterable
+        {"op": "fp", "fn": "desc", "mode": "ss", "our": hx(b"/tmp/vroot"), "segs": [hx(b".."), hx(b".."), hx(b"etc")], "kind": "gen"},
+        {"op": "fp", "fn": "desc", "mode": "bb", "our": hx(b"/tmp/vroot"), "segs": [hx(b"a"), hx(b"b")], "kind": "iter"},
+        {"op": "fp", "fn": "desc", "mode": "bb", "our": hx(b"/tmp/vroot"), "segs": [hx(b"a"), hx(b"..")], "kind": "tuple"},
+        {"op": "fp", "fn": "desc", "mode": "bb", "our": hx(b"/tmp/vroot"), "segs": [hx(b"a"), hx(b"x/..")], "kind": "seq"},
+        {"op": "fp", "fn": "desc", "mode": "bb", "our": hx(b"/tmp/vroot"), "segs": [], "kind": "iter"},
+        {"op": "fp", "fn": "desc", "mode": "bb", "our": hx(b"/tmp/vroot"), "segs": [hx(b"..\n"), hx(b"x")]},
+        {"op": "serve", "root": "dir", "exts": "none", "uri": hx(b"/empty/")},                                  # index looked up above the root
+        {"op": "serve", "root": "sub", "exts": "none", "uri": hx(b"/deep/deeper/")},
+        {"op": "serve", "root": "dir", "exts": "none", "uri": hx(b"/%ff%2f..%2f..%2fsecret.txt")},              # non-UTF-8 + separator + '..'
+        {"op": "serve", "root": "dir", "exts": "none", "uri": hx(b"/..%2fs%ff.txt")},
+        {"op": "serve", "root": "dir", "exts": "none", "uri": hx(b"/idx/n%ff.txt")},
+        {"op": "serve", "root": "dir", "exts": "none", "uri": hx(b"/%2fetc%2fpasswd")},
+        {"op": "serve", "root": "dir", "exts": "none", "uri": hx(b"/..%0a/secret.txt")},
+        {"op": "serve", "root": "dir", "exts": "none", "uri": hx(b"/..%0d%0a/vroot-evil/secret.txt")},
+        {"op": "serve", "root": "dir", "exts": "none", "uri": hx(b"/..\n/secret.txt")},
+        {"op": "serve", "root": "dir", "exts": "none", "uri": hx(b"/..%2fVROOT/secret.txt")},
+        {"op": "serve", "root": "dir", "exts": "html", "uri": hx(b"/.")},                                       # <root>.html exists above the root
+        {"op": "serve", "root": "dir", "exts": "mixed", "uri": hx(b"/x%2f..")},
+        {"op": "serve", "root": "dir", "exts": "none", "uri": hx(b"/%e2%80%a5/secret.txt")},
+        {"op": "serve", "root": "dir", "exts": "none", "uri": hx(b"/a.txt"), "method": "HEAD"},
+        {"op": "serve", "root": "dir", "exts": "none", "uri": hx(b"/../secret.txt"), "method": "HEAD"},
+        {"op": "serve", "root": "dir", "exts": "none", "uri": hx(b"/../secret.txt"), "pre": [hx(b"/sub/deep/c.txt"), hx(b"/sub/")]},
+        {"op": "serve", "root": "dir", "exts": "star", "uri": hx(b"/sub/b"), "pre": [hx(b"/x")]},
         {"op": "lex", "fn": "norm", "a": hx(b"//a/../../b/./c//")},
         {"op": "lex", "fn": "norm", "a": hx(b"///a")},
         {"op": "lex", "fn": "norm", "a": hx(b"a/../../b")},
@@ -473,12 +719,21 @@ def generate(rng, tier):
             nm = _name(rng, parent) if rng.random() < 0.3 else _seg(rng)
             yield {"op": "fp", "fn": "child", "mode": mode, "our": hx(parent), "name": hx(nm)}
         else:
-            yield {"op": "fp", "fn": "desc", "mode": mode, "our": hx(parent),
-                   "segs": [hx(_seg(rng)) for _ in range(rng.choice([0, 1, 2, 2, 3, 5]))]}
+            c = {"op": "fp", "fn": "desc", "mode": mode, "our": hx(parent),
+                 "segs": [hx(_seg(rng)) for _ in range(rng.choice([0, 1, 2, 2, 3, 5]))]}
+            kind = rng.choice(KINDS)
+            if kind != "list":
+                c["kind"] = kind
+            yield c
     for _ in range(n_serve):
         root = rng.choice(["dir"] * 8 + ["sub"] * 5 + ["slash"] * 3 + ["file", "missing"])
-        yield {"op": "serve", "root": root, "exts": rng.choice(["none", "none", "star", "html", "mixed"]),
-               "uri": hx(_uri(rng, root))}
+        c = {"op": "serve", "root": root, "exts": rng.choice(["none", "none", "star", "html", "mixed"]),
+             "uri": hx(_uri(rng, root))}
+        if rng.random() < 0.2:
+            c["method"] = "HEAD"
+        if rng.random() < 0.15:      # the same Site / root File object has served other requests before
+            c["pre"] = [hx(_uri(rng, root)) for _ in range(rng.choice([1, 1, 2]))]
+        yield c
     path_alpha = b"//..ab\x00\xff"
     for _ in range(n_lex):
         fn = rng.choice(["norm", "norm", "join", "abs", "dirbase", "unquote", "utf8"])
@@ -507,7 +762,24 @@ def search(rng, tier, disagreeing):
                                "name": hx(posixpath.join(up, base + suffix) + tail)}
                         yield {"op": "fp", "fn": "child", "mode": mode, "our": hx(parent),
                                "name": hx(posixpath.join(up, base + suffix) + tail)}
+        for variant in [base.swapcase(), base.upper(), base + b"\n", base + b"\r\n", base + b" ", b"\n" + base, base + b"\x00"]:
+            if variant != base:
+                for mode in ["bb", "ss"]:
+                    yield {"op": "fp", "fn": "preauth", "mode": mode, "our": hx(parent), "name": hx(b"../" + variant)}
+                    yield {"op": "fp", "fn": "preauth", "mode": mode, "our": hx(parent), "name": hx(b"../" + variant + b"/x")}
+        for dd in [b"..\n", b"..\r\n", b".. ", b"..\t", b"..\x00", b" ..", b"\xe2\x80\xa5"]:
+            for mode in ["bb", "ss"]:
+                yield {"op": "fp", "fn": "child", "mode": mode, "our": hx(parent), "name": hx(dd)}
+                yield {"op": "fp", "fn": "preauth", "mode": mode, "our": hx(parent), "name": hx(dd + b"/x")}
+                yield {"op": "fp", "fn": "desc", "mode": mode, "our": hx(parent), "segs": [hx(dd), hx(b"x")]}
+        for kind in ["tuple", "iter", "gen", "seq"]:
+            for segs in ([b".."], [b"..", b"x"], [b"a", b"..", b".."], [b"a", b"b"], []):
+                yield {"op": "fp", "fn": "desc", "mode": "bb", "our": hx(parent), "segs": [hx(x) for x in segs], "kind": kind}
+        for i in range(1, len(p)):
+            if p[i] != 0x2f:
+                yield {"op": "fp", "fn": "preauth", "mode": "bb", "our": hx(parent), "name": hx(p[:i] + b"X" + p[i + 1:] + b"/y")}
         for mode in ["bb", "ss"]:
+            yield {"op": "fp", "fn": "preauth", "mode": mode, "our": hx(parent), "name": hx(b"/x" + p + b"/y")}
             yield {"op": "fp", "fn": "preauth", "mode": mode, "our": hx(parent), "name": hx(p + b"-evil")}
             yield {"op": "fp", "fn": "desc", "mode": mode, "our": hx(parent), "segs": [hx(b".."), hx(base + b"-evil")]}
     for c in generate(rng, "quick"):
@@ -518,6 +790,8 @@ def shrink(c):
     if c["op"] == "fp":
         if c["mode"] != "bb":
             yield dict(c, mode="bb")
+        if c.get("kind", "list") != "list":
+            yield {k: v for k, v in c.items() if k != "kind"}
         if c["fn"] == "desc":
             s = c["segs"]
             for i in range(len(s)):
@@ -534,6 +808,12 @@ def shrink(c):
         for i in range(len(o)):
             yield dict(c, our=hx(o[:i] + o[i + 1:]))
     elif c["op"] == "serve":
+        if c.get("pre"):
+            yield {k: v for k, v in c.items() if k != "pre"}
+            for i in range(len(c["pre"])):
+                yield dict(c, pre=c["pre"][:i] + c["pre"][i + 1:])
+        if c.get("method", "GET") != "GET":
+            yield {k: v for k, v in c.items() if k != "method"}
         u = unhx(c["uri"])
         parts = u.split(b"/")
         for i in range(len(parts)):
@@ -563,6 +843,15 @@ def _features(b):
         f += "E"
     if b"" in b.split(b"/")[1:]:
         f += "e"
+    low = b.lower()
+    if any(x in b for x in (b"\n", b"\r", b"\t", b" ", b"\x0b", b"\x0c", b"\x1f", b"\x7f")) or any(
+            x in low for x in (b"%0a", b"%0d", b"%09", b"%20", b"%0b", b"%0c", b"%1f", b"%7f")):
+        f += "W"
+    if any(x in b for x in (b"VROOT", b"Vroot", b"SUB", b"Sub", b"TXT", b"TMP", b"Tmp")):
+        f += "C"
+    if any(x in b for x in (b"\xe2\x80\xa4", b"\xe2\x80\xa5", b"\xef\xbc\x8e", b"\xef\xbc\x8f", b"\xe2\x88\x95")) or any(
+            x in low for x in (b"%e2%80%a5", b"%ef%bc%8e", b"%ef%bc%8f")):
+        f += "L"
     return f
 
 
@@ -574,7 +863,9 @@ def tag(c, out):
             kind = "self" if rs == ps else "child" if rs[:-1] == ps else "deeper"
         inp = unhx(c["name"]) if "name" in c else b"/".join(unhx(s) for s in c["segs"])
         root = "root" if unhx(c["our"]) in (b"/", b"//") else "rel" if not c["our"].startswith("2f") else "abs"
-        return f"fp:{c['fn']}:{c['mode']}:{root}:{kind}:{_features(inp)}"
+        cont = ":" + c["kind"] if c.get("kind", "list") != "list" else ""
+        return f"fp:{c['fn']}:{c['mode']}:{root}:{kind}:{_features(inp)}{cont}"
     if c["op"] == "serve":
-        return f"serve:{c['root']}:{c['exts']}:{kind}:{_features(unhx(c['uri']))}"
+        extra = (":" + c["method"] if c.get("method", "GET") != "GET" else "") + (":after" if c.get("pre") else "")
+        return f"serve:{c['root']}:{c['exts']}:{kind}:{_features(unhx(c['uri']))}{extra}"
     return f"lex:{c['fn']}:{min(len(unhx(c['a'])), 3)}:{_features(unhx(c['a']))}"
